@@ -66,14 +66,29 @@ def py_match(pat, name):
         return None
 
 
+def _max_ranges():
+    import re as _re
+    try:
+        m = _re.search(r"#define\s+MAX_RANGES\s+(\d+)", open(os.path.join(vlib.REPO, "src/common/hostlist.c")).read())
+        return int(m.group(1))
+    except Exception:
+        return 10240
+
+
 def spec(case, matches):
     """S.  Returns ('OK', [names]) | ('ERRX',).  `matches(pat, name)` -> True/False/None (None: does not compile)"""
     targets, excl, keep, drop = [], set(), [], []
+    bad_excl = False
     for _, words in case["opts"]:
         for wd in words:
             if wd[0] == "hosts":
                 targets += expr_names(wd[1])
+            elif wd[0] == "rawx":
+                bad_excl = True                  # an exclusion word that is not a host expression: refused, never skipped
             elif wd[0] == "excl":
+                if any(t[0] in ("br", "br2") and len(t[2]) > _max_ranges() for t in wd[1]):
+                    bad_excl = True              # more items between brackets than the parser accepts: refused, never skipped
+                    continue
                 excl.update(expr_names(wd[1]))
             elif wd[0] == "file":
                 lines = case["files"].get(wd[2])
@@ -88,6 +103,8 @@ def spec(case, matches):
                 if matches(wd[2], b"") is None:
                     return ("ERRX",)
                 (drop if wd[1] else keep).append(wd[2])
+    if bad_excl and targets:
+        return ("ERRX",)
     out = [h for h in targets if h not in excl and all(matches(p, h) for p in keep) and not any(matches(p, h) for p in drop)]
     return ("OK", out)
 
@@ -116,6 +133,8 @@ def word_text(opt, wd, paths):
         return b",".join((b"-" if opt == "w" else b"") + term_text(t) for t in wd[1])
     if wd[0] == "file":
         return (b"-" if (wd[1] and opt == "w") else b"") + b"^" + paths[wd[2]]
+    if wd[0] == "rawx":
+        return (b"-" if opt == "w" else b"") + wd[1]
     pat = wd[2] + (b"/" if wd[3] else b"")
     return (b"-" if (wd[1] and opt == "w") else b"") + b"/" + pat
 
@@ -318,6 +337,12 @@ def long_word_case(r, n, how):
     tw = [("hosts", [("br", b"n", [(b"1", b"%d" % (2 * n + 2))], b"")]), ("hosts", [("plain", b"zz")])]
     word = ("excl", [("br", b"n", [(b"%d" % (2 * k + 1), None) for k in range(n)], b"")])
     return {"files": {}, "opts": [("w", tw), (how, [word])]}
+
+
+def raw_exclusion_case(r, text, how):
+    """an exclusion word that is not a host expression (unbalanced bracket, ...), given as -x TEXT or -w -TEXT"""
+    tw = [("hosts", [("br", b"foo", [(b"1", b"4")], b"")]), ("hosts", [("plain", b"zz")])]
+    return {"files": {}, "opts": [("w", tw), (how, [("rawx", text)])]}
 
 
 def ranged_len_unrelated(n, pad):
